@@ -71,13 +71,17 @@ def corrupt(ev, rng):
         return s[:i] + ("0" if s[i] != "0" else "1") + s[i + 1:]
 
     if ev["ev"] == "encrypt" and not ev["err"] and ev["ct"]:
-        f = rng.choice(["ct", "pt", "rtout"]) if ev["pt"] else "ct"
-        ev[f] = flip_hex(ev[f])
+        f = rng.choice(["ct", "pt", "rtout", "inIntact", "rtIntact"]) if ev["pt"] else "ct"
+        ev[f] = (not ev[f]) if f.endswith("Intact") else flip_hex(ev[f])
         ev["_corrupted"] = f
         return ev
     if ev["ev"] == "decrypt":
-        ev["ok"] = not ev["ok"]
-        ev["_corrupted"] = "ok"
+        f = rng.choice(["ok", "ok", "inIntact"])
+        if f == "ok":
+            ev["ok"] = ev["ok2"] = not ev["ok"]
+        else:
+            ev[f] = not ev[f]
+        ev["_corrupted"] = f
         return ev
     if ev["ev"] in ("polyval", "sivctr") and ev["out"]:
         ev["out"] = flip_hex(ev["out"])
@@ -185,7 +189,9 @@ def run(ctx):
         "trip. spec->Tink: TLC (Plan_AEAD) makes ciphertexts with chosen nonces (00.., ff.., random) that Tink must "
         "decrypt; Wycheproof AES-GCM / AES-GCM-SIV (incl. counter wrap) / (X)ChaCha20-Poly1305 vectors are decrypted by "
         "Tink and judged by the spec; POLYVAL (basis pairs, dense, chunked) and the RFC 8452 counter mode at the 32-bit "
-        "wrap are judged through verif hooks")
+        "wrap are judged through verif hooks. Caller-buffer discipline on every call: inputs adjacent in one reused "
+        "guarded frame (both orders, natural capacity, with/without sentinel spare capacity), frame must be intact after "
+        "the call, every Decrypt issued twice from the same frame")
     ctx.assumptions += ASSUMPTIONS
     pipeline(ctx, "C01")
 
